@@ -56,7 +56,7 @@ inductive Pc
   | startD                                      -- after Thread.start of the dispatcher
   | joinD                                       -- in observer.join()
   | dWait                                       -- dispatcher inside queue.get(block=True)
-  | dLock (w : Wid) (v : Nat)                   -- dispatcher at `with self._lock:` for an entry
+  | dLock (uid : Nat) (w : Wid) (v : Nat)       -- dispatcher at `with self._lock:` for an entry
   | eEmit                                       -- emitter at its yield before an emission
   | eWait                                       -- emitter in stopped_event.wait()
   | done
@@ -70,13 +70,22 @@ inductive Kind
 
 /-- what is observable (the harness logs exactly these) -/
 inductive Obs
-  | enq (w : Wid) (v : Nat)
+  | enq (w : Wid) (v : Nat) (uid : Nat)
   | enqStop
   | drop (w : Wid) (v : Nat)
   | dropStop
-  | call (h : Hid) (w : Wid) (v : Nat)
+  | call (h : Hid) (w : Wid) (v : Nat) (uid : Nat)
   | ret (label : String) (idx : Nat) (res : String)
   | died (name : String)         -- a thread ended with an uncaught exception
+  -- ghost observations (not visible to the harness; what the theorems talk about)
+  | reg (h : Hid) (w : Wid)              -- `_handlers[w].add(h)`
+  | unreg (h : Hid) (w : Wid)            -- `_handlers[w].remove(h)`
+  | unregW (w : Wid)                     -- `del _handlers[w]`
+  | unregAll                             -- `_handlers.clear()`
+  | did (op : Op) (res : String)         -- an API call returned (logged just before its `ret`)
+  | dispatch (uid : Nat) (w : Wid) (hs : List Hid)   -- the dispatcher copied the handler set of `w` for entry `uid`
+  | skip (h : Hid) (uid : Nat)           -- membership re-check failed at h's turn
+  | dispatchEnd (uid : Nat)
   deriving DecidableEq, Repr, Inhabited
 
 structure Thread where
@@ -86,7 +95,8 @@ structure Thread where
   ops : List Op := []          -- calls still to make (client: its script; dispatcher: the running callback's)
   idx : Nat := 0               -- index of the call in progress
   label : String := ""         -- who the calls are logged for ("0", "cb1.0", ...)
-  iter : Option (Wid × Nat × List Hid) := none   -- dispatcher: entry being dispatched, handlers still to visit
+  iter : Option (Nat × Wid × Nat × List Hid) := none   -- dispatcher: entry (uid, watch, value), handlers still to visit
+  cur : Option Op := none      -- the call in progress
   notified : Bool := false
   deriving DecidableEq, Repr, Inhabited
 
@@ -166,18 +176,18 @@ def State.release (s : State) : State :=
   if s.lockCount ≤ 1 then { s with lockOwner := none, lockCount := 0 } else { s with lockCount := s.lockCount - 1 }
 
 /-- `SkipRepeatsQueue.put` (atomic here) + `not_empty.notify()` -/
-def State.putItem (s : State) (mk : Nat → QItem) (onEnq onDrop : Obs) : State :=
+def State.putItem (s : State) (mk : Nat → QItem) (onEnq : Nat → Obs) (onDrop : Obs) : State :=
   let item := mk s.nextUid
   match s.last with
   | some l =>
     if item.valEq l then s.log onDrop
     else
-      let s1 := ({ s with queue := s.queue ++ [item], last := some item, nextUid := s.nextUid + 1 } : State).log onEnq
+      let s1 := ({ s with queue := s.queue ++ [item], last := some item, nextUid := s.nextUid + 1 } : State).log (onEnq s.nextUid)
       match s1.dIdx with
       | some d => s1.updThread d (fun t => if t.pc == .dWait then { t with notified := true } else t)
       | none => s1
   | none =>
-    let s1 := ({ s with queue := s.queue ++ [item], last := some item, nextUid := s.nextUid + 1 } : State).log onEnq
+    let s1 := ({ s with queue := s.queue ++ [item], last := some item, nextUid := s.nextUid + 1 } : State).log (onEnq s.nextUid)
     match s1.dIdx with
     | some d => s1.updThread d (fun t => if t.pc == .dWait then { t with notified := true } else t)
     | none => s1
@@ -186,11 +196,15 @@ def State.putItem (s : State) (mk : Nat → QItem) (onEnq onDrop : Obs) : State 
    number of calls / loop iterations chained without a visible operation (scripts are finite). -/
 mutual
 def finishOp (fuel : Nat) (s : State) (ti : Nat) (res : String) : State :=
-  match s.thread? ti with
-  | none => s
-  | some t =>
-    let s1 := (s.log (.ret t.label t.idx res)).setThread ti { t with idx := t.idx + 1 }
-    nextOp fuel s1 ti
+  match fuel with
+  | 0 => s
+  | fuel + 1 =>
+    match s.thread? ti with
+    | none => s
+    | some t =>
+      let s0 := match t.cur with | some op => s.log (.did op res) | none => s
+      let s1 := (s0.log (.ret t.label t.idx res)).setThread ti { t with idx := t.idx + 1, cur := none }
+      nextOp fuel s1 ti
 
 def nextOp (fuel : Nat) (s : State) (ti : Nat) : State :=
   match fuel with
@@ -200,7 +214,7 @@ def nextOp (fuel : Nat) (s : State) (ti : Nat) : State :=
     | none => s
     | some t =>
       match t.ops with
-      | op :: rest => startOp fuel (s.setThread ti { t with ops := rest }) ti op
+      | op :: rest => startOp fuel (s.setThread ti { t with ops := rest, cur := some op }) ti op
       | [] =>
         match t.kind with
         | .dispatcher => continueIter fuel s ti
@@ -208,122 +222,146 @@ def nextOp (fuel : Nat) (s : State) (ti : Nat) : State :=
 
 /-- a thread enters an API call -/
 def startOp (fuel : Nat) (s : State) (ti : Nat) (op : Op) : State :=
-  match op with
-  | .start =>
-    -- `for emitter in self._emitters.copy(): emitter.start()` ... `super().start()`; no lock
-    startEmitters fuel s ti s.regEm
-  | .join =>
-    match s.dIdx with
-    | none => finishOp fuel s ti "raised:RuntimeError"        -- cannot join thread before it is started
-    | some d => if d = ti then finishOp fuel s ti "raised:RuntimeError"   -- cannot join current thread
-                else s.updThread ti (fun t => { t with pc := .joinD })
-  | .stop =>
-    let s1 := { s with stoppedD := true }
-    enterLocked fuel s1 ti .stop
-  | .raiseExc =>
-    -- the exception unwinds every `with self._lock` of this thread and ends it (nothing catches it)
-    match s.thread? ti with
-    | some t =>
-      let s1 := if s.lockOwner = some ti then { s with lockOwner := none, lockCount := 0 } else s
-      (s1.log (.died t.name)).setThread ti { t with pc := .done, ops := [], iter := none }
-    | none => s
-  | op => enterLocked fuel s ti op
+  match fuel with
+  | 0 => s
+  | fuel + 1 =>
+    match op with
+    | .start =>
+      -- `for emitter in self._emitters.copy(): emitter.start()` ... `super().start()`; no lock
+      startEmitters fuel s ti s.regEm
+    | .join =>
+      match s.dIdx with
+      | none => finishOp fuel s ti "raised:RuntimeError"        -- cannot join thread before it is started
+      | some d => if d = ti then finishOp fuel s ti "raised:RuntimeError"   -- cannot join current thread
+                  else s.updThread ti (fun t => { t with pc := .joinD })
+    | .stop =>
+      let s1 := { s with stoppedD := true }
+      enterLocked fuel s1 ti .stop
+    | .raiseExc =>
+      -- the exception unwinds every `with self._lock` of this thread and ends it (nothing catches it)
+      match s.thread? ti with
+      | some t =>
+        let s1 := if s.lockOwner = some ti then { s with lockOwner := none, lockCount := 0 } else s
+        (s1.log (.died t.name)).setThread ti { t with pc := .done, ops := [], iter := none }
+      | none => s
+    | op => enterLocked fuel s ti op
 
 /-- `with self._lock:` — re-entrant for the owner, a visible operation otherwise -/
 def enterLocked (fuel : Nat) (s : State) (ti : Nat) (op : Op) : State :=
-  if s.lockOwner = some ti then locked fuel { s with lockCount := s.lockCount + 1 } ti op
-  else s.updThread ti (fun t => { t with pc := .acq op })
+  match fuel with
+  | 0 => s
+  | fuel + 1 =>
+    if s.lockOwner = some ti then locked fuel { s with lockCount := s.lockCount + 1 } ti op
+    else s.updThread ti (fun t => { t with pc := .acq op })
 
 /-- the body of an API call with the lock held -/
 def locked (fuel : Nat) (s : State) (ti : Nat) (op : Op) : State :=
-  match op with
-  | .schedule h w fault =>
-    match s.emitterOf w with
-    | some _ =>
-      let s1 := { s with handlers := ainsert w (insertSorted h (s.handlersOf w)) s.handlers,
-                         watches := insertSorted w s.watches }
-      finishOp fuel s1.release ti "ok"
-    | none =>
-      if fault = 1 then finishOp fuel s.release ti "raised:ctor"
-      else
-        let e := s.emObjs.length
-        let script := (alookup w s.emitScripts).getD []
-        let s1 : State := { s with emObjs := s.emObjs ++ [({ wid := w, script := script } : EmObj)] }
-        if s1.observerAlive && !s1.stoppedD then
-          if fault = 2 then finishOp fuel s1.release ti "raised:start"
-          else
-            let (s2, ei) := s1.spawn ("E" ++ toString w) (.emitter e)
-            let s3 := s2.updEm e (fun o => { o with started := true, tidx := some ei })
-            s3.updThread ti (fun t => { t with pc := .schedStarted h w e })
-        else schedFinish fuel s1 ti h w e
-  | .unschedule w =>
-    match s.emitterOf w with
-    | none => finishOp fuel s.release ti "raised:KeyError"
-    | some e =>
-      if (alookup w s.handlers).isNone then finishOp fuel s.release ti "raised:KeyError"
-      else
-        let s1 := { s with handlers := aerase w s.handlers, regEm := s.regEm.filter (· != e) }
-        let s2 := s1.updEm e (fun o => { o with stopped := true })
-        match (s2.em? e).bind (·.tidx) with
-        | some _ => s2.updThread ti (fun t => { t with pc := .unschedJoin w e })
-        | none => unschedFinish fuel s2 ti w          -- join() of an unstarted thread: RuntimeError, suppressed
-  | .addHandler h w =>
-    finishOp fuel ({ s with handlers := ainsert w (insertSorted h (s.handlersOf w)) s.handlers } : State).release ti "ok"
-  | .removeHandler h w =>
-    if (s.handlersOf w).contains h then
-      finishOp fuel ({ s with handlers := ainsert w ((s.handlersOf w).filter (· != h)) s.handlers } : State).release ti "ok"
-    else finishOp fuel ({ s with handlers := ainsert w (s.handlersOf w) s.handlers } : State).release ti "raised:KeyError"
-  | .unscheduleAll => uallBody fuel s ti false
-  | .stop => uallBody fuel s ti true
-  | _ => s
+  match fuel with
+  | 0 => s
+  | fuel + 1 =>
+    match op with
+    | .schedule h w fault =>
+      match s.emitterOf w with
+      | some _ =>
+        let s1 := ({ s with handlers := ainsert w (insertSorted h (s.handlersOf w)) s.handlers,
+                            watches := insertSorted w s.watches } : State).log (.reg h w)
+        finishOp fuel s1.release ti "ok"
+      | none =>
+        if fault = 1 then finishOp fuel s.release ti "raised:ctor"
+        else
+          let e := s.emObjs.length
+          let script := (alookup w s.emitScripts).getD []
+          let s1 : State := { s with emObjs := s.emObjs ++ [({ wid := w, script := script } : EmObj)] }
+          if s1.observerAlive && !s1.stoppedD then
+            if fault = 2 then finishOp fuel s1.release ti "raised:start"
+            else
+              let (s2, ei) := s1.spawn ("E" ++ toString w) (.emitter e)
+              let s3 := s2.updEm e (fun o => { o with started := true, tidx := some ei })
+              s3.updThread ti (fun t => { t with pc := .schedStarted h w e })
+          else schedFinish fuel s1 ti h w e
+    | .unschedule w =>
+      match s.emitterOf w with
+      | none => finishOp fuel s.release ti "raised:KeyError"
+      | some e =>
+        if (alookup w s.handlers).isNone then finishOp fuel s.release ti "raised:KeyError"
+        else
+          let s1 := ({ s with handlers := aerase w s.handlers, regEm := s.regEm.filter (· != e) } : State).log (.unregW w)
+          let s2 := s1.updEm e (fun o => { o with stopped := true })
+          match (s2.em? e).bind (·.tidx) with
+          | some _ => s2.updThread ti (fun t => { t with pc := .unschedJoin w e })
+          | none => unschedFinish fuel s2 ti w          -- join() of an unstarted thread: RuntimeError, suppressed
+    | .addHandler h w =>
+      finishOp fuel (({ s with handlers := ainsert w (insertSorted h (s.handlersOf w)) s.handlers } : State).log (.reg h w)).release ti "ok"
+    | .removeHandler h w =>
+      if (s.handlersOf w).contains h then
+        finishOp fuel (({ s with handlers := ainsert w ((s.handlersOf w).filter (· != h)) s.handlers } : State).log (.unreg h w)).release ti "ok"
+      else finishOp fuel ({ s with handlers := ainsert w (s.handlersOf w) s.handlers } : State).release ti "raised:KeyError"
+    | .unscheduleAll => uallBody fuel s ti false
+    | .stop => uallBody fuel s ti true
+    | _ => s
 
 def schedFinish (fuel : Nat) (s : State) (ti : Nat) (h : Hid) (w : Wid) (e : Eid) : State :=
-  -- `_add_emitter`, `_add_handler_for_watch`, `_watches.add`
-  let reg := (s.regEm ++ [e])
-  let sorted := reg.mergeSort (fun a b =>
-    ((s.em? a).map (·.wid)).getD 0 ≤ ((s.em? b).map (·.wid)).getD 0)
-  let s1 := { s with regEm := sorted,
-                     handlers := ainsert w (insertSorted h (s.handlersOf w)) s.handlers,
-                     watches := insertSorted w s.watches }
-  finishOp fuel s1.release ti "ok"
+  match fuel with
+  | 0 => s
+  | fuel + 1 =>
+    -- `_add_emitter`, `_add_handler_for_watch`, `_watches.add`
+    let reg := (s.regEm ++ [e])
+    let sorted := reg.mergeSort (fun a b =>
+      ((s.em? a).map (·.wid)).getD 0 ≤ ((s.em? b).map (·.wid)).getD 0)
+    let s1 := ({ s with regEm := sorted,
+                        handlers := ainsert w (insertSorted h (s.handlersOf w)) s.handlers,
+                        watches := insertSorted w s.watches } : State).log (.reg h w)
+    finishOp fuel s1.release ti "ok"
 
 def unschedFinish (fuel : Nat) (s : State) (ti : Nat) (w : Wid) : State :=
-  if s.watches.contains w then finishOp fuel ({ s with watches := s.watches.filter (· != w) } : State).release ti "ok"
-  else finishOp fuel s.release ti "raised:KeyError"
+  match fuel with
+  | 0 => s
+  | fuel + 1 =>
+    if s.watches.contains w then finishOp fuel ({ s with watches := s.watches.filter (· != w) } : State).release ti "ok"
+    else finishOp fuel s.release ti "raised:KeyError"
 
 /-- `unschedule_all()` (also the first half of `stop()`): clear handlers, stop every emitter, then join them -/
 def uallBody (fuel : Nat) (s : State) (ti : Nat) (forStop : Bool) : State :=
-  let s1 := { s with handlers := [] }
-  let s2 := s1.regEm.foldl (fun acc e => acc.updEm e (fun o => { o with stopped := true })) s1
-  uallJoinNext fuel s2 ti s2.regEm forStop
+  match fuel with
+  | 0 => s
+  | fuel + 1 =>
+    let s1 := ({ s with handlers := [] } : State).log .unregAll
+    let s2 := s1.regEm.foldl (fun acc e => acc.updEm e (fun o => { o with stopped := true })) s1
+    uallJoinNext fuel s2 ti s2.regEm forStop
 
 def uallJoinNext (fuel : Nat) (s : State) (ti : Nat) (es : List Eid) (forStop : Bool) : State :=
-  -- `for emitter in self._emitters: with suppress(RuntimeError): emitter.join()` — whether an emitter
-  -- has been started is looked at when its turn comes (observer.start() runs without the lock)
-  match es with
-  | e :: rest =>
-    if ((s.em? e).bind (·.tidx)).isSome then s.updThread ti (fun t => { t with pc := .uallJoin (e :: rest) forStop })
-    else uallJoinNext fuel s ti rest forStop
-  | [] =>
-    let s1 := ({ s with regEm := [], watches := [] } : State).release
-    if forStop then
-      finishOp fuel (s1.putItem (fun _ => .stop) .enqStop .dropStop) ti "ok"
-    else finishOp fuel s1 ti "ok"
+  match fuel with
+  | 0 => s
+  | fuel + 1 =>
+    -- `for emitter in self._emitters: with suppress(RuntimeError): emitter.join()` — whether an emitter
+    -- has been started is looked at when its turn comes (observer.start() runs without the lock)
+    match es with
+    | e :: rest =>
+      if ((s.em? e).bind (·.tidx)).isSome then s.updThread ti (fun t => { t with pc := .uallJoin (e :: rest) forStop })
+      else uallJoinNext fuel s ti rest forStop
+    | [] =>
+      let s1 := ({ s with regEm := [], watches := [] } : State).release
+      if forStop then
+        finishOp fuel (s1.putItem (fun _ => .stop) (fun _ => .enqStop) .dropStop) ti "ok"
+      else finishOp fuel s1 ti "ok"
 
 /-- `observer.start()`: start the emitters one by one, then the dispatcher thread -/
 def startEmitters (fuel : Nat) (s : State) (ti : Nat) (es : List Eid) : State :=
-  match es with
-  | e :: rest =>
-    match s.em? e with
-    | some o =>
-      let (s1, ei) := s.spawn ("E" ++ toString o.wid) (.emitter e)
-      let s2 := s1.updEm e (fun o => { o with started := true, tidx := some ei })
-      s2.updThread ti (fun t => { t with pc := .startEm rest })
-    | none => s
-  | [] =>
-    let (s1, d) := s.spawn "D" .dispatcher
-    let s2 := { s1 with dIdx := some d }
-    s2.updThread ti (fun t => { t with pc := .startD })
+  match fuel with
+  | 0 => s
+  | fuel + 1 =>
+    match es with
+    | e :: rest =>
+      match s.em? e with
+      | some o =>
+        let (s1, ei) := s.spawn ("E" ++ toString o.wid) (.emitter e)
+        let s2 := s1.updEm e (fun o => { o with started := true, tidx := some ei })
+        s2.updThread ti (fun t => { t with pc := .startEm rest })
+      | none => s
+    | [] =>
+      let (s1, d) := s.spawn "D" .dispatcher
+      let s2 := { s1 with dIdx := some d }
+      s2.updThread ti (fun t => { t with pc := .startD })
 
 /-- the dispatcher's loop head: `while self.should_keep_running(): dispatch_events(...)` -/
 def dLoop (fuel : Nat) (s : State) (ti : Nat) : State :=
@@ -347,7 +385,7 @@ def dGet (fuel : Nat) (s : State) (ti : Nat) : State :=
         let s1 := { s with queue := rest, last := last' }
         match item with
         | .stop => dLoop fuel s1 ti
-        | .ev _ w v => s1.updThread ti (fun t => { t with pc := .dLock w v })
+        | .ev u w v => s1.updThread ti (fun t => { t with pc := .dLock u w v })
 
 /-- the dispatch loop over the copied handler set, re-checking membership before each call -/
 def continueIter (fuel : Nat) (s : State) (ti : Nat) : State :=
@@ -359,21 +397,21 @@ def continueIter (fuel : Nat) (s : State) (ti : Nat) : State :=
     | some t =>
       match t.iter with
       | none => s
-      | some (w, v, []) =>
+      | some (u, _w, _v, []) =>
         -- loop finished: leave `with self._lock`, task_done(), next entry
-        let s1 := (s.setThread ti { t with iter := none }).release
+        let s1 := ((s.log (.dispatchEnd u)).setThread ti { t with iter := none }).release
         dLoop fuel s1 ti
-      | some (w, v, h :: rest) =>
+      | some (u, w, v, h :: rest) =>
         -- `self._handlers[watch]` (defaultdict): creates the key if missing
         let s0 := if (alookup w s.handlers).isNone then { s with handlers := ainsert w [] s.handlers } else s
         if (s0.handlersOf w).contains h then
           let k := (alookup h s0.invoc).getD 0
           let script := (((alookup h s0.callbacks).getD []))[k]?.getD []
-          let s1 := (({ s0 with invoc := ainsert h (k + 1) s0.invoc } : State).log (.call h w v))
-          let s2 := s1.setThread ti { t with iter := some (w, v, rest), ops := script, idx := 0,
+          let s1 := (({ s0 with invoc := ainsert h (k + 1) s0.invoc } : State).log (.call h w v u))
+          let s2 := s1.setThread ti { t with iter := some (u, w, v, rest), ops := script, idx := 0,
                                              label := "cb" ++ toString h ++ "." ++ toString k }
           nextOp fuel s2 ti
-        else continueIter fuel (s0.setThread ti { t with iter := some (w, v, rest) }) ti
+        else continueIter fuel ((s0.log (.skip h u)).setThread ti { t with iter := some (u, w, v, rest) }) ti
 
 /-- the emitter's loop head: `while self.should_keep_running(): self.queue_events(timeout)` -/
 def eLoop (s : State) (ti : Nat) (e : Eid) : State :=
@@ -395,7 +433,7 @@ def enabled (s : State) (ti : Nat) : Bool :=
     match t.pc with
     | .done => false
     | .acq _ => s.lockOwner.isNone
-    | .dLock _ _ => s.lockOwner.isNone
+    | .dLock _ _ _ => s.lockOwner.isNone
     | .unschedJoin _ e => match (s.em? e).bind (·.tidx) with | some ei => s.threadDone ei | none => true
     | .uallJoin (e :: _) _ => match (s.em? e).bind (·.tidx) with | some ei => s.threadDone ei | none => true
     | .joinD => match s.dIdx with | some d => s.threadDone d | none => true
@@ -425,11 +463,11 @@ def step (s : State) (ti : Nat) : Option State :=
     | .startD => some (finishOp FUEL s ti "ok")
     | .joinD => some (finishOp FUEL s ti "ok")
     | .dWait => some (dGet FUEL (s.updThread ti (fun t => { t with notified := false })) ti)
-    | .dLock w v =>
+    | .dLock u w v =>
       let s1 := { s with lockOwner := some ti, lockCount := 1 }
       -- `for handler in self._handlers[watch].copy()` (creates the key)
       let s2 := if (alookup w s1.handlers).isNone then { s1 with handlers := ainsert w [] s1.handlers } else s1
-      let s3 := s2.updThread ti (fun t => { t with iter := some (w, v, s2.handlersOf w) })
+      let s3 := (s2.log (.dispatch u w (s2.handlersOf w))).updThread ti (fun t => { t with iter := some (u, w, v, s2.handlersOf w) })
       some (continueIter FUEL s3 ti)
     | .eEmit =>
       match t.kind with
@@ -439,7 +477,7 @@ def step (s : State) (ti : Nat) : Option State :=
           match o.script with
           | v :: rest =>
             let s1 := s.updEm e (fun o => { o with script := rest })
-            let s2 := s1.putItem (fun u => .ev u o.wid v) (.enq o.wid v) (.drop o.wid v)
+            let s2 := s1.putItem (fun u => .ev u o.wid v) (fun u => .enq o.wid v u) (.drop o.wid v)
             some (eLoop s2 ti e)
           | [] => some (eLoop s ti e)
         | none => none
